@@ -260,6 +260,24 @@ type chunkConn struct {
 	timer *time.Timer
 }
 
+// Read: in "coalesce" mode what the other side wrote in several pieces is let to pile up first, so that it
+// arrives in one read (a handshake response together with the frames that follow it, several frames at once)
+func (c *chunkConn) Read(p []byte) (int, error) {
+	if c.mode != "coalesce" || len(p) < 2 {
+		return c.Conn.Read(p)
+	}
+	// wait for the first byte, give the sender a moment to write what follows, then take all there is
+	n, err := c.Conn.Read(p[:1])
+	if err != nil || n == 0 {
+		return n, err
+	}
+	time.Sleep(2 * time.Millisecond)
+	c.Conn.SetReadDeadline(time.Now().Add(200 * time.Microsecond))
+	m, _ := c.Conn.Read(p[1:])
+	c.Conn.SetReadDeadline(time.Time{})
+	return n + m, nil
+}
+
 func (c *chunkConn) Write(p []byte) (int, error) {
 	c.mu.Lock()
 	defer c.mu.Unlock()
@@ -305,6 +323,7 @@ type wsServer struct {
 	want  int
 	kind  string
 	push  []*jsonrpc2.Message // messages the server writes to the client
+	taken chan struct{}       // (multi-dial scenario) signalled once the pushes of a connection are written
 }
 
 func (s *wsServer) ServeHTTP(w http.ResponseWriter, r *http.Request) {
@@ -325,6 +344,9 @@ func (s *wsServer) ServeHTTP(w http.ResponseWriter, r *http.Request) {
 	s.mu.Unlock()
 	for _, m := range push {
 		codec.WriteMessage(m)
+	}
+	if s.taken != nil {
+		s.taken <- struct{}{}
 	}
 	var got []string
 	for len(got) < want {
@@ -428,6 +450,81 @@ func socketCases(tr *Trace, rng *rand.Rand, cases int) {
 			}
 			emitCodec(tr, kind, cut, sent, got, nil)
 			emitCodec(tr, kind+"-push", mode, pushSent, pushed, nil)
+		}
+		// several connections dialled one after the other in one process, each greeted by the server with its own
+		// messages right after the handshake; they are only read once all connections exist
+		for round := 0; round < 1+cases/12; round++ {
+			mode := []string{"coalesce", "plain", "dribble"}[round%3]
+			srvH.mu.Lock()
+			srvH.taken = make(chan struct{}, 1)
+			srvH.mu.Unlock()
+			type dialled struct {
+				codec jsonrpc2.Codec
+				sent  []string
+			}
+			var conns []dialled
+			for c := 0; c < 10; c++ {
+				push := genMessages(rng, 1+rng.Intn(3), 200)
+				srvH.mu.Lock()
+				srvH.want, srvH.push = 0, push
+				srvH.mu.Unlock()
+				dial := func(network, addr string) (net.Conn, error) {
+					cn, err := net.Dial(network, addr)
+					if err != nil {
+						return nil, err
+					}
+					return &chunkConn{Conn: cn, rng: rand.New(rand.NewSource(int64(c))), mode: mode}, nil
+				}
+				gorillaws.DefaultDialer.NetDial = dial
+				gobwasws.DefaultDialer.NetDial = func(ctx context.Context, network, addr string) (net.Conn, error) { return dial(network, addr) }
+				ctx, cancel := context.WithTimeout(context.Background(), 10*time.Second)
+				var codec jsonrpc2.Codec
+				var err error
+				if kind == "gorilla" {
+					codec, err = gorilla.WebSocketDial(ctx, url)
+				} else {
+					codec, err = gobwas.WebSocketDial(ctx, url)
+				}
+				cancel()
+				if err != nil {
+					fatal("dial %s: %v", kind, err)
+				}
+				select {
+				case <-srvH.taken:
+				case <-time.After(10 * time.Second):
+				}
+				<-srvH.recvd // (the handler returns at once: nothing is expected from the client)
+				var sent []string
+				for _, m := range push {
+					sent = append(sent, canon(m))
+				}
+				conns = append(conns, dialled{codec, sent})
+			}
+			for _, d := range conns {
+				var got []string
+				done := make(chan struct{})
+				go func() {
+					defer close(done)
+					for len(got) < len(d.sent) {
+						m, err := d.codec.ReadMessage()
+						if err != nil {
+							return
+						}
+						got = append(got, canon(m))
+					}
+				}()
+				select {
+				case <-done:
+				case <-time.After(10 * time.Second):
+					d.codec.Close()
+					<-done
+				}
+				d.codec.Close()
+				emitCodec(tr, kind+"-multidial", mode, d.sent, got, nil)
+			}
+			srvH.mu.Lock()
+			srvH.taken = nil
+			srvH.mu.Unlock()
 		}
 		srv.Close()
 	}
